@@ -433,7 +433,14 @@ def m_enumerate(vm, s, args, kw):
         return _pending(vm.do_call(s, prelude.p_enumerate, [x, start], {}, ("push",)))
     items = C.iter_items(vm, s, x)
     if any(p is not TRUE for p, _ in items):
-        raise Unsupported("enumerate over guarded sequence")
+        if start != 0:
+            raise Unsupported("enumerate(start) over guarded sequence")
+        seq = []
+        before = []
+        for j, (p, v) in enumerate(items):
+            seq.append((p, (SlotRef(None, j, tuple(before)), v)))
+            before.append(p)
+        return VIter(seq, 0, x)
     return VIter([(TRUE, (start + i, v)) for i, (_, v) in enumerate(items)], 0, x)
 
 
